@@ -237,6 +237,22 @@ func Payload(c *Case, now time.Time) (map[string]any, error) {
 		}
 
 		switch c.Conc.ScpForm {
+		case "scp-and-scope":
+			// both claims: scp says what the token may, scope (which counts only without scp) names
+			// exactly the scopes the token does not have
+			cl["scp"] = l
+
+			var lacking []string
+
+			for _, sym := range []string{"s1", "s2", "s3"} {
+				if !slices.Contains(t.Scp, sym) {
+					lacking = append(lacking, grantedScope(sym, st, rng))
+				}
+			}
+
+			if len(l) != 0 && len(lacking) != 0 {
+				cl["scope"] = strings.Join(lacking, " ")
+			}
 		case "scope-string":
 			cl["scope"] = strings.Join(l, " ")
 		case "scope-array":
